@@ -1,70 +1,6 @@
-// vharness: worker binary of the verification harness.  One sub-command per property.
+// vharness: worker binary of the verification harness.  One sub-command per property (see vmain).
 package main
 
-import (
-	"fmt"
-	"os"
-	"runtime/pprof"
+import "verifharness/vmain"
 
-	"verifharness/c01"
-	"verifharness/c02"
-	"verifharness/c05"
-	"verifharness/c06"
-	"verifharness/c07"
-	"verifharness/c08"
-	"verifharness/c09"
-	"verifharness/c11"
-	"verifharness/c15"
-	"verifharness/c16"
-	"verifharness/c17"
-	"verifharness/c18"
-	"verifharness/c19"
-	"verifharness/c20"
-	"verifharness/wk"
-)
-
-var runners = map[string]func(*wk.Job, *wk.Worker) error{
-	"c01": c01.Run,
-	"c02": c02.Run,
-	"c05": c05.Run,
-	"c06": c06.Run,
-	"c07": c07.Run,
-	"c08": c08.Run,
-	"c09": c09.Run,
-	"c11": c11.Run,
-	"c15": c15.Run,
-	"c16": c16.Run,
-	"c17": c17.Run,
-	"c18": c18.Run,
-	"c19": c19.Run,
-	"c20": c20.Run,
-}
-
-func main() {
-	if len(os.Args) < 3 {
-		fmt.Fprintln(os.Stderr, "usage: vharness <runner> <job.json>")
-		os.Exit(64)
-	}
-	run, ok := runners[os.Args[1]]
-	if !ok {
-		fmt.Fprintln(os.Stderr, "unknown runner", os.Args[1])
-		os.Exit(64)
-	}
-	job, err := wk.LoadJob(os.Args[2])
-	if err != nil {
-		fmt.Fprintln(os.Stderr, "job:", err)
-		os.Exit(64)
-	}
-	if pf := os.Getenv("VERIF_PROFILE"); pf != "" {
-		if f, err := os.Create(pf); err == nil {
-			_ = pprof.StartCPUProfile(f)
-			defer pprof.StopCPUProfile()
-		}
-	}
-	w := wk.New(job)
-	if err := run(job, w); err != nil {
-		fmt.Fprintln(os.Stderr, "runner error:", err)
-		os.Exit(65)
-	}
-	w.Finish()
-}
+func main() { vmain.Main() }
